@@ -473,6 +473,7 @@ type Job struct {
 	MapOrder    string                 `json:"map_order,omitempty"`
 	Values      map[string]uint64      `json:"-"`              // nondet names fixed to concrete values (selftest)
 	Weight      int                    `json:"-"`              // scheduling hint: heavier jobs start first
+	MaxPaths    int                    `json:"-"`              // path budget (0 = default 4096)
 	Race        bool                   `json:"race,omitempty"` // native replay under the race detector
 	Open        []string               `json:"-"`
 	CoverModels bool                   `json:"-"`
@@ -541,6 +542,10 @@ func (w *Worker) RunJob(job Job) (res *JobResult) {
 		in.OpenKnown[id] = true
 	}
 	in.WantCoverModels = job.CoverModels
+	in.MaxPaths = 4096
+	if job.MaxPaths > 0 {
+		in.MaxPaths = job.MaxPaths
+	}
 	pkg := w.S.L.ByPath[job.Pkg]
 	if pkg == nil {
 		res.Err = "package not loaded: " + job.Pkg
